@@ -1,7 +1,123 @@
-import Ccp.Model.Tree
+import Ccp.Spec.BlankKeep
+import Ccp.Proofs.TreeLossless
+import Ccp.Proofs.TreeKeep
+/-!
+# C01 — parsing an indentation-style config is total and lossless
+
+`parse cfg ls` is the model of `CiscoConfParse(ls, syntax=…, comment_delimiters=…,
+ignore_blank_lines=…)` for the four indentation syntaxes (`cfg.ios` distinguishes ios, the
+only one with `macro name` handling, from nxos / iosxr / asa, which run the same code).
+
+**Totality** (`parse_total` of the design): `parse : Cfg → List Str → T` is a total Lean
+function — it has no error result at all — so "the parse of every line list, for every
+syntax, delimiter set and `ignore_blank_lines` setting, returns" holds by construction of the
+model; that the *real* parser likewise never raises on the generated inputs is what the
+correspondence checks (the model answers `ok` for every request).  The typed-model factory
+(which may reject a line) is not part of this model.
+
+Property theorems only; helper lemmas live in `Ccp.Proofs.TreeLossless` and `Ccp.Proofs.TreeKeep`;
+the specification of the blank-line filter is `Ccp/Spec/BlankKeep.lean`.
+-/
 namespace Ccp.C01
 open Ccp.Tree Ccp.Py
 
-theorem placeholder_reparent_texts (t : T) (p c : Nat) : (reparent t p c).texts = t.texts := rfl
+/-- **Lossless**: with `ignore_blank_lines` off, the texts of the parsed tree are exactly the
+input lines, in order — for every syntax and delimiter set, banners and macros (terminated or
+not) included. -/
+theorem parse_texts (cfg : Cfg) (ls : List Str) (hi : cfg.ignoreBlank = false) :
+    (parse cfg ls).texts = ls := by
+  rw [parse_eq_bootstrap, bootstrap, bootstrapFuel_noIgnore cfg hi, link_texts_ll]
+
+/-- **One entry per line**: the parent list and the `blank_line_keep` list of the parsed tree
+have exactly one entry per text line (every configuration, `ignore_blank_lines` on or off).
+Lines are numbered by their position in `texts` (the dump prints position `i` as `linenum`),
+so this is the model-level content of "the i-th line carries line number i". -/
+theorem parse_sizes (cfg : Cfg) (ls : List Str) :
+    (parse cfg ls).parents.length = (parse cfg ls).texts.length ∧
+    (parse cfg ls).keep.length = (parse cfg ls).texts.length := by
+  rw [parse_eq_bootstrap]; exact bootstrapFuel_wf cfg _ _
+
+/-- the second bootstrap performed by `commit()` changes nothing -/
+theorem parse_commit_idempotent (cfg : Cfg) (ls : List Str) : parse cfg ls = bootstrap cfg ls :=
+  parse_eq_bootstrap cfg ls
+
+/-- `nonBlank s` = `s.strip() != ""` (blankness through the 29 Python whitespace code points) -/
+example (s : Str) : nonBlank s = !(strip s).isEmpty := rfl
+
+/-- **With `ignore_blank_lines`** (and in fact for every configuration): the texts of the
+result are a sub-list of the input (nothing added, duplicated, reordered or rewritten), every
+non-blank line is kept (the non-blank lines of the result are the non-blank lines of the
+input, in order), and the result is a fixed point of the filter: passes 1–3 followed by the
+blank-line filter on the result's own texts drop nothing more (`ls.length` rounds of the
+restart loop always suffice). -/
+theorem parse_texts_ignore_blank (cfg : Cfg) (ls : List Str) :
+    (parse cfg ls).texts.Sublist ls ∧
+    (parse cfg ls).texts.filter nonBlank = ls.filter nonBlank ∧
+    (cfg.ignoreBlank = true → keptTexts (link cfg (parse cfg ls).texts) = (parse cfg ls).texts) := by
+  rw [parse_eq_bootstrap]
+  exact ⟨bootstrapFuel_sublist cfg _ _, bootstrapFuel_nonBlank cfg _ _, fun hi => bootstrap_fixed cfg hi ls⟩
+
+/-- every dropped line is blank -/
+theorem parse_drops_only_blank (cfg : Cfg) (ls : List Str) (s : Str) (hs : s ∈ ls) (hn : nonBlank s = true) :
+    s ∈ (parse cfg ls).texts := by
+  have h := (parse_texts_ignore_blank cfg ls).2.1
+  have : s ∈ ls.filter nonBlank := List.mem_filter.mpr ⟨hs, hn⟩
+  rw [← h] at this
+  exact (List.mem_filter.mp this).1
+
+/-- **Closed form with `ignore_blank_lines`** (`Ccp/Spec/BlankKeep.lean`): the texts of the
+result are the input lines at the positions `j` with `keepSpec cfg ls j`, i.e. line `j` is
+non-blank or lies in the stretch protected by a start line at some position `q ≤ j`
+(`inBody_spec` below).  `prot cfg x rest` is that stretch, counted from the start line `x`
+itself: for a banner start `1 +` the number of following lines before the first one that
+contains the delimiter (`0` more if the banner has no recognisable delimiter or the delimiter
+occurs twice in the start line); for a `macro name` line under syntax ios `1 +` the number of
+following lines up to and including the first `@` line; the larger of the two; `0` if `x`
+starts nothing.  Banners and macros terminated or not, nested, overlapping: no hypotheses. -/
+theorem parse_texts_eq_keepSpec (cfg : Cfg) (ls : List Str) (hi : cfg.ignoreBlank = true) :
+    (parse cfg ls).texts = (ls.zipIdx.filter (fun xj => keepSpec cfg ls xj.2)).map Prod.fst := by
+  rw [parse_eq_bootstrap, bootstrap_texts_eq_scan cfg hi, keptScan_eq_filter]
+
+/-- the meaning of `inBody` (and hence of `keepSpec j = nonBlank line j || inBody j`) -/
+theorem inBody_spec (cfg : Cfg) (ls : List Str) (j : Nat) (hj : j < ls.length) :
+    inBody cfg ls j = true ↔
+      ∃ q, q ≤ j ∧ ∃ x, ls[q]? = some x ∧ j - q < prot cfg x (ls.drop (q + 1)) := by
+  rw [inBody_iff cfg ls j hj]
+  constructor
+  · rintro ⟨q, _, h2, h3⟩; exact ⟨q, h2, h3⟩
+  · rintro ⟨q, h2, h3⟩; exact ⟨q, Nat.zero_le _, h2, h3⟩
+
+/-- the restart loop of `bootstrap` never needs a second filtering round: the result is what
+one run of passes 1–3 and the blank-line filter on the input leaves -/
+theorem parse_single_round (cfg : Cfg) (ls : List Str) (hi : cfg.ignoreBlank = true) :
+    (parse cfg ls).texts = keptTexts (link cfg ls) := by
+  rw [parse_eq_bootstrap, bootstrap_texts_eq_scan cfg hi, keptTexts_link_eq_scan]
+
+/-! ## non-vacuity -/
+
+private def iosIgn : Cfg := { ios := true, delims := ['!'], ignoreBlank := true }
+private def iosCfg : Cfg := { ios := true, delims := ['!'], ignoreBlank := false }
+
+/-- a banner with a blank body line, a blank line outside, under `ignore_blank_lines` -/
+private def exBanner : List Str :=
+  ["banner motd ^".toList, " hello".toList, "".toList, "^".toList, "  ".toList, "end".toList]
+
+example : (parse iosIgn exBanner).texts =
+    ["banner motd ^".toList, " hello".toList, "".toList, "^".toList, "end".toList] := by decide
+example : (parse iosIgn exBanner).parents = [0, 0, 0, 0, 4] := by decide
+example : (List.range 6).map (keepSpec iosIgn exBanner) = [true, true, true, true, false, true] := by decide
+example : (List.range 6).map (inBody iosIgn exBanner) = [true, true, true, false, false, false] := by decide
+example : (parse iosCfg exBanner).texts = exBanner := by decide
+/-- an unterminated macro (the former `IndexError`, F01) parses, losslessly -/
+example : (parse iosCfg ["macro name m".toList, " a".toList]).texts = ["macro name m".toList, " a".toList] := by decide
+/-- a macro body keeps its blank line, the blank line after `@` goes -/
+example : (parse iosIgn ["macro name m".toList, "".toList, "@".toList, "".toList]).texts =
+    ["macro name m".toList, "".toList, "@".toList] := by decide
+/-- under a non-ios syntax `macro name` protects nothing -/
+example : (parse { iosIgn with ios := false } ["macro name m".toList, "".toList, "@".toList, "".toList]).texts =
+    ["macro name m".toList, "@".toList] := by decide
+/-- an unterminated banner protects everything after it; the blank line before it goes -/
+example : (parse iosIgn ["".toList, "banner exec #".toList, "".toList, " ".toList]).texts =
+    ["banner exec #".toList, "".toList, " ".toList] := by decide
 
 end Ccp.C01
